@@ -196,6 +196,95 @@ class _PureBuiltin(Abstract):
         return getattr(__import__("builtins"), self.name)(*args)
 
 
+class _TypeOf(Abstract):
+    """`type(x)` of an abstract instance: usable in isinstance(y, type(x)), `is`, `.__name__`, and as a constructor"""
+
+    def __init__(self, cls: Any):
+        self.cls = cls
+        self.name = cls.name
+        self.__dict__["__name__"] = cls.name
+
+    def __eq__(self, other: Any) -> bool:
+        return isinstance(other, _TypeOf) and other.cls is self.cls
+
+    def __hash__(self) -> int:
+        return hash(self.cls.qualname)
+
+    def __repr__(self) -> str:
+        return "<class %s>" % self.cls.name
+
+
+def _abs_text(f: "Folder", v: Any, how: str = "__str__") -> Any:
+    """str(v) / repr(v) as the evaluated program computes it for an instance of a repository class"""
+    if type(v).__name__ == "AObj" and v._record() is None:
+        for nm in ((how, "__repr__") if how == "__str__" else (how,)):
+            m_ = v._ctx_.repo.lookup_method(v._cls_, nm)
+            if m_ is not None and not m_.is_abstract:
+                from .absint import _BoundMethod
+
+                try:
+                    return _BoundMethod(v, m_).call(f, [], {})
+                except Unfoldable:
+                    return None  # the text of an object is then its field listing, as before: distinct objects stay distinct
+    return None
+
+
+class _Texted:
+    """wraps an abstract instance for `%`-formatting: %s / %r give the evaluated __str__ / __repr__"""
+
+    def __init__(self, f: "Folder", v: Any):
+        self.f, self.v = f, v
+
+    def __str__(self) -> str:
+        t = _abs_text(self.f, self.v, "__str__")
+        return t if isinstance(t, str) else str(self.v)
+
+    def __repr__(self) -> str:
+        t = _abs_text(self.f, self.v, "__repr__")
+        return t if isinstance(t, str) else repr(self.v)
+
+
+def _abs_hash(f: "Folder", v: Any) -> int:
+    """hash(v) as the evaluated program computes it: instances of repository classes through their own __hash__"""
+    if type(v).__name__ == "AObj" and v._record() is None:
+        m_ = None
+        for k_ in v._ctx_.repo.mro(v._cls_):
+            if not isinstance(k_, ClassInfo):
+                continue
+            if "__hash__" in k_.methods:
+                m_ = k_.methods["__hash__"]
+                break
+            if "__hash__" in k_.assigns:
+                hv = Folder({}, v._ctx_.repo, k_.module, k_, f.hook).fold(k_.assigns["__hash__"])
+                if hv is None:
+                    from .absint import Raised
+
+                    raise Raised("TypeError", k_.assigns["__hash__"])
+                r = call_value(f, hv, [v])
+                if not isinstance(r, int):
+                    raise Unfoldable("__hash__ of %s does not evaluate to an integer" % v._cls_.name)
+                return r
+            if "__eq__" in k_.methods:
+                from .absint import Raised
+
+                raise Raised("TypeError", k_.methods["__eq__"].node)  # __eq__ without __hash__: the class is unhashable
+        if m_ is not None:
+            from .absint import _BoundMethod
+
+            r = _BoundMethod(v, m_).call(f, [], {})
+            if not isinstance(r, int):
+                raise Unfoldable("__hash__ of %s does not evaluate to an integer" % v._cls_.name)
+            return r
+        return id(v)
+    if isinstance(v, tuple):
+        return hash(tuple(_abs_hash(f, x) for x in v))
+    if isinstance(v, frozenset):
+        return hash(frozenset(_abs_hash(f, x) for x in v))
+    if isinstance(v, Abstract) and not isinstance(v, (_TypeOf,)) and type(v).__hash__ is None:  # type: ignore
+        raise Unfoldable("hash of an abstract value")
+    return hash(v)
+
+
 _DUNDER = {ast.Add: "add", ast.Sub: "sub", ast.Mult: "mul", ast.Mod: "mod", ast.BitOr: "or", ast.BitAnd: "and", ast.BitXor: "xor", ast.FloorDiv: "floordiv", ast.Div: "truediv", ast.Pow: "pow", ast.LShift: "lshift", ast.RShift: "rshift"}
 
 
@@ -324,6 +413,9 @@ class Folder:
                 if isinstance(l, float) or isinstance(r, float):
                     return l / r
                 return Fraction(l) / Fraction(r)
+            if isinstance(e.op, ast.Mod) and isinstance(l, str) and not isinstance(l, Abstract):
+                wrap = lambda x: _Texted(self, x) if type(x).__name__ == "AObj" and x._record() is None else x  # noqa: E731
+                r = tuple(wrap(x) for x in r) if isinstance(r, tuple) else wrap(r)
             op = _BIN.get(type(e.op))
             if op is None:
                 raise Unfoldable(unparse(e))
@@ -416,7 +508,9 @@ class Folder:
                 elif isinstance(v, ast.FormattedValue):
                     try:
                         x = self.fold(v.value)
-                        if isinstance(x, Abstract) and not isinstance(x, (str,)):
+                        if type(x).__name__ == "AObj" and x._record() is None:
+                            x = _Texted(self, x)
+                        elif isinstance(x, Abstract) and not isinstance(x, (str,)):
                             return "<fstring>"
                         parts.append(repr(x) if v.conversion == 114 else str(x))
                     except Unfoldable:
@@ -757,7 +851,11 @@ class Folder:
             raise Unfoldable(unparse(e))
         if name == "type" and len(args) == 1:
             v = self.fold(args[0])
+            if type(v).__name__ == "AObj" and "_kind_" not in v.__dict__:
+                return _TypeOf(v._cls_)  # the class of an instance constructed from the repository's own constructor
             return Sym(__name__=getattr(v, "_kind_", type(v).__name__))
+        if name == "hash" and len(args) == 1:
+            return _abs_hash(self, self.fold(args[0]))
         if name in ("int", "bool"):
             v = self.fold(args[0])
             if name == "int":
@@ -826,8 +924,18 @@ class Folder:
             from .absint import Raised
 
             raise Raised("TypeError", e)
+        if name == "repr" and len(args) == 1:
+            v = self.fold(args[0])
+            t_ = _abs_text(self, v, "__repr__")
+            if t_ is not None:
+                return t_
+            if isinstance(v, Abstract):
+                raise Unfoldable(unparse(e))
+            return repr(v)
         if name == "str":
-            return str(self.fold(args[0]))
+            v = self.fold(args[0])
+            t_ = _abs_text(self, v, "__str__")
+            return t_ if t_ is not None else str(v)
         if name == "sum":
             vals = list(self.fold(args[0]))
             start = self.fold(args[1]) if len(args) > 1 else 0
@@ -929,11 +1037,11 @@ class Folder:
             kn = []
             for k in class_exprs:
                 dk = dotted(k)
-                if dk is not None and dk.split(".")[0] in self.env:
+                if dk is None or dk.split(".")[0] in self.env:
                     # the class is held in a variable (e.g. a row of a dispatch table)
                     kv = self.fold(k)
                     for x in (kv if isinstance(kv, (tuple, list)) else [kv]):
-                        kn.append(x.name if isinstance(x, ClassInfo) else getattr(x, "__name__", None) if isinstance(x, type) else dk)
+                        kn.append(x.name if isinstance(x, (ClassInfo, _TypeOf)) else getattr(x, "__name__", None) if isinstance(x, type) else dk)
                 else:
                     kn.append(dk)
             pyk = {"bytes": bytes, "bytearray": bytearray, "int": int, "bool": bool, "str": str, "float": float, "complex": complex, "memoryview": memoryview, "object": object, "fractions.Fraction": Fraction, "Fraction": Fraction, "set": (set, frozenset), "frozenset": frozenset, "list": list, "tuple": tuple, "dict": dict}
